@@ -265,6 +265,14 @@ func c16Jobs(tier string) []*SeqJob {
 	s := base
 	s.invalidUTF8 = true
 	shapes = append(shapes, s)
+	// a metric whose value struct is entirely zero (kind INVALID, all numbers 0), and zero values of every kind
+	for _, ty := range types {
+		z := base
+		z.mtype, z.i64, z.f64 = ty, 0, 0
+		shapes = append(shapes, z)
+		z.f64 = math.Copysign(0, -1)
+		shapes = append(shapes, z)
+	}
 	// every int64 length class, for every field that carries one
 	for _, v := range varintAlphabet() {
 		for _, ty := range types {
